@@ -33,8 +33,8 @@ using namespace sim;
 
 namespace {
 
-enum Kind { K_CREATE, K_DESTROY, K_MOVE, K_RESET, K_READ, K_COUNT, K_VALUE, K_LINGER, K_ALIVE };
-const char* const kNames[] = {"create", "destroy", "move", "reset", "read", "count", "value", "linger", "for_each_alive", nullptr};
+enum Kind { K_CREATE, K_DESTROY, K_MOVE, K_RESET, K_READ, K_COUNT, K_VALUE, K_LINGER, K_ALIVE, K_CHURN };
+const char* const kNames[] = {"create", "destroy", "move", "reset", "read", "count", "value", "linger", "for_each_alive", "private_instance", nullptr};
 enum Subject { S_ADDER, S_SUMMER, S_MAXER, S_MINER, S_ETL, S_CETL };
 
 struct Cell { uint64_t v; uint64_t magic; Cell() : v(0), magic(0xC0FFEEull) {} };
@@ -262,17 +262,23 @@ void note_local(int k, void* addr) {
   if (!S->preempt.count(addr)) { S->preempt.insert(addr); preempt_register(addr, slot_size(S->subject)); }
 }
 
-void worker_count(int k, int64_t v) {
-  Inst& I = S->inst[k];
-  if (!I.obj) return;
-  void* addr = with(S->subject, I.obj, [](auto* o) { return slot_of(o); });
-  note_local(k, addr);
+// the calling thread now owns a babylon thread id of the subject's tag type
+void note_thread_id() {
   int me = tid();
   if ((S->subject == S_ETL || S->subject == S_CETL) && !S->live_tid16.count(me)) {
     int id = S->subject == S_ETL ? (int)babylon::ThreadId::current_thread_id<Cell>().value : (int)babylon::ThreadId::current_thread_id<CETL::CacheLine>().value;
     for (auto& kv : S->live_tid16) if (kv.second == id) fail("shared-local", "thread-id", "live threads T%d and T%d have the same babylon thread id %d", kv.first, me, id);
     S->live_tid16[me] = id;
   }
+}
+
+void worker_count(int k, int64_t v) {
+  Inst& I = S->inst[k];
+  if (!I.obj) return;
+  void* addr = with(S->subject, I.obj, [](auto* o) { return slot_of(o); });
+  note_local(k, addr);
+  int me = tid();
+  note_thread_id();
   std::vector<Rec>& mine = I.adds[me];
   mine.emplace_back();
   size_t idx = mine.size() - 1;
@@ -282,6 +288,37 @@ void worker_count(int k, int64_t v) {
   if (I.epoch != ep) fail("harness", "count", "instance changed during a count");
   Rec& r = I.adds[me][idx];
   r.end = stamp(); r.clk = my_clock(); r.done = true;
+}
+
+// A worker creates an instance nobody else knows, counts into it, reads it and
+// destroys it, while other threads do the same or count elsewhere: instance
+// ids, cache lines and slots are recycled between *concurrently* created and
+// destroyed instances. Only this thread touches the instance, so its readings
+// are exact.
+template <typename C> void churn_one(int64_t v) {
+  C* c = new C();
+  Reading r0 = do_read((const C*)c);
+  bool ext = is_ext(S->subject);
+  if (ext ? r0.has : (r0.sum != 0 || r0.num != 0))
+    fail("not-zero", "fresh-private", "an instance created on a worker thread (while other threads create and destroy instances of the same type) reports sum %lld count %llu before anything was added", (long long)r0.sum, (unsigned long long)r0.num);
+  do_count(c, v);
+  Reading r1 = do_read((const C*)c);
+  if (ext ? (!r1.has || r1.sum != v) : (r1.sum != v || (has_num(S->subject) && r1.num != 1)))
+    fail("lost", "private-instance", "a private instance received exactly one contribution %lld from its only user and reports %s sum %lld count %llu", (long long)v, ext && !r1.has ? "nothing," : "", (long long)r1.sum, (unsigned long long)r1.num);
+  delete c;
+  note_thread_id();
+  probe("private_instance_churned");
+}
+void worker_churn(int64_t v) {
+  if (v <= 0) v = 1;
+  switch (S->subject) {
+    case S_ADDER: churn_one<Adder>(v); break;
+    case S_SUMMER: churn_one<Summer>(v); break;
+    case S_MAXER: churn_one<Maxer>(v); break;
+    case S_MINER: churn_one<Miner>(v); break;
+    case S_ETL: churn_one<ETL>(v); break;
+    default: churn_one<CETL>(v); break;
+  }
 }
 
 // a concurrent read must equal the aggregate of one prefix per writer thread,
@@ -402,6 +439,7 @@ void run(const Plan& p) {
               break;
             }
             case K_VALUE: worker_value(k); break;
+            case K_CHURN: worker_churn(op.b); break;
             case K_LINGER: {
               std::unique_lock<std::mutex> l(S->m);
               S->cv.wait(l, [g] { return S->release_level >= g; });
@@ -498,6 +536,7 @@ void gen(Rng& r, Plan& p, const GenParams& gp) {
     int nw = (int)r.range(1, 3);
     bool reader = r.chance(1, 2) || gp.mode == 7;
     bool any_linger = false;
+    bool churn = gp.mode < 7 && r.chance(1, 3);  // workers also create/destroy private instances
     for (int w = 0; w < nw; w++) {
       size_t t = next_thread++;
       int n = (int)r.range(1, gp.thorough ? 8 : 5);
@@ -506,7 +545,8 @@ void gen(Rng& r, Plan& p, const GenParams& gp) {
       for (int i = 0; i < n; i++) {
         int k = pick_live();
         int64_t v = is_ext(subject) ? (int64_t)r.range(-50, 50) : (r.chance(1, 4) ? -(int64_t)r.range(1, 9) : (int64_t)r.range(0, 20));
-        add(t, K_COUNT, k, v, g);
+        if (churn && r.chance(1, 3)) add(t, K_CHURN, 0, (int64_t)r.range(1, 100), g);
+        else add(t, K_COUNT, k, v, g);
         if (i + 1 == linger_at) { add(t, K_LINGER, 0, 0, g); any_linger = true; }
       }
     }
